@@ -92,6 +92,78 @@ mod verif_c13 {
         kani::cover!(v as u32 > 0xffff);
     }
 
+    // ---- A2. strings and binary (bounded) ----------------------------------------------------------------------
+    #[kani::proof]
+    #[kani::stub(core::fmt::write, nofmt_write)]
+    #[kani::unwind(8)]
+    fn rt_string_len2() {
+        let bytes: [u8; 2] = kani::any();
+        let len: usize = kani::any();
+        kani::assume(len <= 2);
+        if let Ok(st) = std::str::from_utf8(&bytes[..len]) {
+            match Any::new(st) {
+                Ok(a) => match a.deserialize_into::<String>() {
+                    Ok(back) => {
+                        assert!(back.as_bytes().len() == len);
+                        assert!(len < 1 || back.as_bytes()[0] == bytes[0]);
+                        assert!(len < 2 || back.as_bytes()[1] == bytes[1]);
+                        std::mem::forget(back);
+                    }
+                    Err(_) => assert!(false),
+                },
+                Err(_) => assert!(false),
+            }
+        }
+        kani::cover!(len == 2);
+    }
+
+    /// what serde_bytes::ByteBuf does
+    pub struct Blob(pub Vec<u8>);
+    impl serde::Serialize for Blob {
+        fn serialize<S: serde::Serializer>(&self, s: S) -> Result<S::Ok, S::Error> {
+            s.serialize_bytes(&self.0)
+        }
+    }
+    impl<'de> Deserialize<'de> for Blob {
+        fn deserialize<D: Deserializer<'de>>(d: D) -> Result<Blob, D::Error> {
+            struct BV;
+            impl<'de> Visitor<'de> for BV {
+                type Value = Blob;
+                fn expecting(&self, _: &mut fmt::Formatter<'_>) -> fmt::Result {
+                    Ok(())
+                }
+                fn visit_byte_buf<E: de::Error>(self, v: Vec<u8>) -> Result<Blob, E> {
+                    Ok(Blob(v))
+                }
+                fn visit_bytes<E: de::Error>(self, v: &[u8]) -> Result<Blob, E> {
+                    Ok(Blob(v.to_vec()))
+                }
+            }
+            d.deserialize_byte_buf(BV)
+        }
+    }
+
+    #[kani::proof]
+    #[kani::stub(core::fmt::write, nofmt_write)]
+    #[kani::unwind(8)]
+    fn rt_bytes_len2() {
+        let b: [u8; 2] = kani::any();
+        let mut v = Vec::with_capacity(2);
+        v.push(b[0]);
+        v.push(b[1]);
+        match Any::new(Blob(v)) {
+            Ok(a) => match a.deserialize_into::<Blob>() {
+                Ok(back) => {
+                    assert!(back.0.len() == 2 && back.0[0] == b[0] && back.0[1] == b[1]);
+                    std::mem::forget(back);
+                }
+                Err(_) => assert!(false),
+            },
+            Err(_) => assert!(false),
+        }
+        kani::cover!(true);
+    }
+
     // ---- B. `any` is the identity on scalar events: visitor event in == serializer event out ----------
     macro_rules! event_identity {
         ($name:ident, $visit:ident, $t:ty, $ev:expr) => {
